@@ -329,10 +329,20 @@ func (bs *baseServer) Handshake(transportName string, ctx *types.HttpContext) (*
 	bs.clients.Store(id, socket)
 	bs.clientsCount.Add(1)
 
+	unregister := func() {
+		// LoadAndDelete makes the decrement happen at most once per session
+		if _, loaded := bs.clients.LoadAndDelete(id); loaded {
+			bs.clientsCount.Add(^uint64(0))
+		}
+	}
 	socket.Once("close", func(...any) {
-		bs.clients.Delete(id)
-		bs.clientsCount.Add(^uint64(0))
+		unregister()
 	})
+	// the session may already have closed (its close event is emitted as soon
+	// as NewSocket attaches the transport): it must not stay registered
+	if socket.ReadyState() == "closed" {
+		unregister()
+	}
 
 	bs.Emit("connection", socket)
 
